@@ -134,3 +134,40 @@ Definition render_doc_unmasked (js css : str) (t : str) : str :=
        | Some x => x
        | None => t1
        end.
+
+(* ---------- what IS a render marker / a placeholder: the documented grammar, declaratively ---------- *)
+Definition blank (w : str) : Prop := w <> [] /\ Forall (fun c => is_bspace c = true) w.
+
+(* <!-- _RENDERED data -->  with non-empty ASCII white space at the three places, data = non-empty, no white space, no '>' *)
+Definition MK_OPEN : str := [60;33;45;45]%N.                          (* <!-- *)
+Definition MK_WORD : str := [95;82;69;78;68;69;82;69;68]%N.           (* _RENDERED *)
+Definition MK_CLOSE : str := [45;45;62]%N.                            (* --> *)
+Definition is_marker (span data : str) : Prop :=
+  exists w1 w2 w3, blank w1 /\ blank w2 /\ blank w3 /\ data <> [] /\ Forall (fun c => is_data c = true) data /\
+    span = MK_OPEN ++ w1 ++ MK_WORD ++ w2 ++ data ++ w3 ++ MK_CLOSE.
+
+(* name + six word characters + ="" *)
+Definition EQ_QQ : str := [61;34;34]%N.                                (* ="" *)
+Definition is_attr (name a : str) : Prop :=
+  exists w, length w = 6 /\ Forall (fun c => is_word c = true) w /\ a = name ++ w ++ EQ_QQ.
+Inductive is_attrs (name : str) : str -> Prop :=
+| attrs_nil : is_attrs name []
+| attrs_cons a b : is_attr name a -> is_attrs name b -> is_attrs name (a ++ b).
+
+(* <link name="CSS_PLACEHOLDER"[ data-djc-css-XXXXXX=""]( data-djc-id-XXXXXX="")*[/]>   and
+   <script name="JS_PLACEHOLDER"[ data-djc-css-XXXXXX=""]( data-djc-id-XXXXXX="")*></script> *)
+Definition JS_CLOSE : str := [62;60;47;115;99;114;105;112;116;62]%N.   (* ></script> *)
+Definition is_placeholder (span : str) (k : kind) : Prop :=
+  exists o ids, (o = [] \/ is_attr CSS_ID o) /\ is_attrs COMP_ID ids /\
+    match k with
+    | KCss => exists sl, (sl = [] \/ sl = [47%N]) /\ span = CSS_OPEN ++ o ++ ids ++ sl ++ [GT]
+    | KJs => span = JS_OPEN ++ o ++ ids ++ JS_CLOSE
+    end.
+
+(* `parts_of P d l`: the text d is cut, left to right, into kept symbols (inl) and spans that satisfy P (inr, with
+   the token the span stands for); a symbol is kept only where no P-span starts (leftmost-first). *)
+Inductive parts_of {A} (P : str -> A -> Prop) : str -> list (N + A) -> Prop :=
+| po_nil : parts_of P [] []
+| po_sym c d l : (forall span a rest, P span a -> c :: d <> span ++ rest) ->
+                 parts_of P d l -> parts_of P (c :: d) (inl c :: l)
+| po_tok span a d l : P span a -> parts_of P d l -> parts_of P (span ++ d) (inr a :: l).
